@@ -138,7 +138,7 @@ func runReplayCase(work string, id int, c *ReplayCase) {
 	}
 }
 
-const entryFileSize = 30000 // lib/raftlog maxNumEntries (entries per entry-log file)
+const entryFileSize = raftlog.VerifMaxNumEntries // entries per entry-log file, taken from the tree (hook of C17: maxNumEntries)
 
 // the witness of finding C05-replay-skipped-after-truncation, and its harmless neighbours
 func corpusReplay() []*ReplayCase {
